@@ -648,13 +648,13 @@ func extractSessionCompositeKey(data any, keys []string) string {
 	if m, ok := data.(map[string]any); ok {
 		parts := make([]string, 0, len(keys))
 		for _, k := range keys {
-			if val, exists := m[k]; exists {
-				parts = append(parts, cast.ToString(val))
+			if val, exists := m[k]; exists && val != nil {
+				parts = append(parts, groupKeyPart(cast.ToString(val)))
 			} else {
-				parts = append(parts, "")
+				parts = append(parts, nullGroupKeyPart) // NULL / missing value forms its own group
 			}
 		}
-		return strings.Join(parts, "|")
+		return strings.Join(parts, groupKeySep)
 	}
 
 	// Use reflection for structs and other types
@@ -665,22 +665,26 @@ func extractSessionCompositeKey(data any, keys []string) string {
 
 	parts := make([]string, 0, len(keys))
 	for _, k := range keys {
-		var part string
+		part := nullGroupKeyPart // NULL / missing value forms its own group
 		switch v.Kind() {
 		case reflect.Map:
 			if v.Type().Key().Kind() == reflect.String {
 				mv := v.MapIndex(reflect.ValueOf(k))
 				if mv.IsValid() {
-					part = cast.ToString(mv.Interface())
+					if iv := mv.Interface(); iv != nil {
+						part = groupKeyPart(cast.ToString(iv))
+					}
 				}
 			}
 		case reflect.Struct:
 			f := v.FieldByName(k)
 			if f.IsValid() {
-				part = cast.ToString(f.Interface())
+				if iv := f.Interface(); iv != nil {
+					part = groupKeyPart(cast.ToString(iv))
+				}
 			}
 		}
 		parts = append(parts, part)
 	}
-	return strings.Join(parts, "|")
+	return strings.Join(parts, groupKeySep)
 }
